@@ -819,6 +819,17 @@ func (m *bfMachine) eval(fr *bfFrame, heap bfHeap, v ssa.Value) (any, string, bo
 		case bfSlice:
 			sl = base
 		case bfPtr: // pointer to an array object
+			if g, isG := x.X.(*ssa.Global); isG && base.obj < 0 {
+				// element of a package-level table that only its initialiser writes: a read-only copy
+				if es := globalArrayLiteral(g); es != nil {
+					obj := m.newArray(heap, len(es))
+					for k, e := range es {
+						heap[obj][k] = m.value(fr, e)
+					}
+					sl = bfSlice{obj: obj, lo: 0, hi: len(es), cp: len(es)}
+					break
+				}
+			}
 			if base.obj < 0 || base.field != -1 {
 				return bfUnknown{"element of an unmodelled sequence"}, "", false
 			}
